@@ -82,6 +82,12 @@ _iov("C10", "Arena memory is reclaimed: no leak after drop, bounded footprint in
      "Kernel-checked: dropping every object leaves no holder (derived liveness); correspondence of the live-chunk set after every operation; "
      "leak oracle on the process-wide counters at the end of every history.",
      " PARTIAL BY NATURE: leaks below the model (Arc/Box internals) are only visible to the counters.")
-_iov("C20", "A cloned or taken OwningIovec is an independent snapshot", [], [], ["C20"], ["A", "R"],
+_iov("C20", "A cloned or taken OwningIovec is an independent snapshot",
+     ["Woodpile.Props.C20.clone_copies",
+      "Woodpile.Props.C20.take_moves_all",
+      "Woodpile.Props.C20.take_keeps_backfill",
+      "Woodpile.Props.C20.frame_struct",
+      "Woodpile.Props.C20.frame_valid"],
+     ["Woodpile.Props.C20"], ["C20"], ["A", "R"],
      "Kernel-checked frame theorems on the multi-object world model; correspondence over histories with clone/take and interleaved suffixes on both sides; "
      "per-object shadow oracle checked on every object after every operation.")
